@@ -142,6 +142,7 @@ static uint64_t mix(uint64_t h, uint64_t v)
 long sched_now(void) { return vclock; }
 
 static void finish(const char *status, int code);
+static int finish_exit;         /* exit status of the harness process: 0, or 128+signo after a fault */
 
 void sched_bug(const char *fmt, ...)
 {
@@ -351,8 +352,23 @@ static void finish(const char *status, int code)
     for (i = 0; i < nth; i++) if (th[i].alive) fprintf(stdout, "%s,", th[i].name);
     fprintf(stdout, "\n");
     __real_fflush(stdout);
-    _exit(0);
+    _exit(finish_exit);
 }
+
+#ifndef __SANITIZE_ADDRESS__
+/* A pdsh thread faulted (e.g. the signals thread, whose cancellation is deferred, walking t[] after dsh() has
+ * freed it).  Keep the trace: name the thread (`I <thread> fault <signo>`), write the C and M lines (status=segv)
+ * and die with the conventional status 128+signo, so callers still see a crashed process but can tell what
+ * happened.  Sanitizer builds keep the sanitizer's own report instead. */
+static void on_fault(int sig)
+{
+    static int once;
+    if (once++) _exit(128 + sig);
+    fprintf(stdout, "I %s fault %d\n", self ? self->name : "?", sig);
+    finish_exit = 128 + sig;
+    finish("segv", 0);
+}
+#endif
 
 static int is_cancel_point(int kind)
 {
@@ -1148,6 +1164,10 @@ int main(int argc, char **argv)
         for (i = 0; i < pct_depth - 1 && i < 16; i++)
             pct_cp[i] = (int) (rnd() % (uint64_t) (pct_len > 0 ? pct_len : 1));
 
+#ifndef __SANITIZE_ADDRESS__
+    signal(SIGSEGV, on_fault);
+    signal(SIGBUS, on_fault);
+#endif
     sem_init(&handback, 0, 0);
     memset(&th[0], 0, sizeof th[0]);
     th[0].alive = 1;
